@@ -66,6 +66,27 @@ func (m *MultiCloser) Run() error                                               
 func (m *MultiCloser) PostProcessBeforeInitialization(c any, n string) (any, error) { return c, nil }
 func (m *MultiCloser) PostProcessAfterInitialization(c any, n string) (any, error)  { return c, nil }
 
+// SliceCloser is a closer whose type is not a struct (a named slice registered by pointer; element 0 is its bookkeeping)
+type SliceCloser []*Closer
+
+func (s *SliceCloser) Naming() string { return (*s)[0].name }
+func (s *SliceCloser) Close() error   { return (*s)[0].Close() }
+
+// FlakyCloser fails its first initialization only; its name sorts behind the App's, so that first attempt is made
+// while the App collects its closers. Either the start is refused, or - if it succeeds - the closer is one of the
+// registered closers like any other.
+type FlakyCloser struct {
+	Closer
+	inits int32
+}
+
+func (f *FlakyCloser) Init() error {
+	if atomic.AddInt32(&f.inits, 1) == 1 {
+		return errors.New("transient initialization failure")
+	}
+	return nil
+}
+
 // FailRunner makes the runner phase - and therefore Run - fail: the closers exist by then and a clean-up
 // Close must reach them all the same.
 type FailRunner struct{}
@@ -116,6 +137,11 @@ func TestClose(t *testing.T) {
 				cc.name, cc.gate, cc.fail = "a-collector", c.gate, c.fail // sorts before github.com/go-kid/ioc/app/App
 				cs[i] = &cc.Closer
 				comps = append(comps, cc)
+				continue
+			}
+			if rapid.IntRange(0, 6).Draw(t, "nonstruct") == 0 {
+				sc := &SliceCloser{c}
+				comps = append(comps, sc)
 				continue
 			}
 			if rapid.IntRange(0, 5).Draw(t, "multirole") == 0 {
@@ -457,4 +483,46 @@ func TestLocalTypesSharingAName(t *testing.T) {
 	expect("container 4", pk4)
 	kit.Rec.Case("local types sharing a name: plain then closing", true, "same-named-local-types")
 	kit.Rec.Case("local types sharing a name: closing then plain", true, "same-named-local-types")
+}
+
+// TestFlakyCloser: a closer whose first initialization fails (and whose name sorts behind the App's). The start may
+// be refused; when it is not, App.Close reaches that closer like every other one.
+func TestFlakyCloser(t *testing.T) {
+	kit.Rec.Rule(rule)
+	rapid.Check(t, func(t *rapid.T) {
+		n := rapid.IntRange(0, 4).Draw(t, "others")
+		mk := func(name string) *Closer {
+			c := &Closer{name: name, gate: make(chan struct{})}
+			close(c.gate)
+			return c
+		}
+		fl := &FlakyCloser{Closer: *mk(rapid.SampledFrom([]string{"z-flaky", "h-flaky", "zz"}).Draw(t, "name"))}
+		comps := []any{fl, &Bystander{}}
+		var cs []*Closer
+		for i := 0; i < n; i++ {
+			c := mk(fmt.Sprintf("closer-%02d", i))
+			cs = append(cs, c)
+			comps = append(comps, c)
+		}
+		comps = rapid.Permutation(comps).Draw(t, "regorder")
+		out := kit.RunApp(app.SetComponents(comps...))
+		desc := fmt.Sprintf("flaky closer %q + %d others", fl.name, n)
+		if out.Panic != nil {
+			t.Fatalf("C14: %s: panic %v", desc, out.Panic)
+		}
+		if out.Err != nil {
+			kit.Rec.Case(desc+" (start refused)", false, "flaky-closer-start-refused")
+			return
+		}
+		out.App.Close()
+		if calls := atomic.LoadInt32(&fl.calls); calls != 1 {
+			t.Fatalf("C14: %s: the start succeeded (the closer was initialised at the %d. attempt), yet App.Close invoked it %d times", desc, atomic.LoadInt32(&fl.inits), calls)
+		}
+		for i, c := range cs {
+			if calls := atomic.LoadInt32(&c.calls); calls != 1 {
+				t.Fatalf("C14: %s: closer %d invoked %d times", desc, i, calls)
+			}
+		}
+		kit.Rec.Case(desc, true, "flaky-closer-started")
+	})
 }
